@@ -448,5 +448,102 @@ theorem rollbackIn_sim {c : Ctx} {id : TxId} {cur : Nat} {i : Inp} {gb sb gb' : 
           rw [if_neg hcl]
           cases hg
           exact ⟨_, rfl, rfl, h3⟩
+theorem rollbackTx_sim {c : Ctx} {bals : Bals} {id : TxId} {r : Store × Bals × List (TxId × Nat)}
+    (hdeb : ∀ id i d cr, AMap.get g.debits ⟨id, bm, i⟩ = some d → AMap.get g.credits d.2 = some cr →
+      addrs.contains cr.sh = false)
+    (h : RbInv addrs bm g s gi si) (hg : rollbackTx c gi bals bm id = .ok r) :
+    ∃ r', rollbackTx c si bals bm id = .ok r' ∧ r'.2.1 = r.2.1 ∧ RbInv addrs bm g s r.1 r'.1 := by
+  unfold rollbackTx at hg ⊢
+  rw [h.tx.new (id, bm) rfl]
+  cases ht : AMap.get gi.txrecs (id, bm) with
+  | none => rw [ht] at hg; cases hg; exact ⟨_, rfl, rfl, h⟩
+  | some loc =>
+    rw [ht] at hg
+    dsimp only at hg ⊢
+    cases hl : c.node.txByFileLoc loc with
+    | none => rw [hl] at hg; cases hg
+    | some tx =>
+      rw [hl] at hg
+      dsimp only at hg ⊢
+      have h1 := h.eraseTxrec id
+      by_cases hcb : tx.cb = true
+      · rw [if_pos hcb] at hg ⊢
+        obtain ⟨ga, h2, h3⟩ := M_bind_ok hg
+        obtain ⟨sa, hs2, hR⟩ := foldIdxM_sim
+          (fun (ga sa : (Store × Bals) × List (TxId × Nat)) => RbR addrs bm g s ga.1 sa.1)
+          (rollbackCbOut c id bm) (rollbackCbOut c id bm) tx.outs
+          (fun _ _ _ _ _ _ hR hf => rollbackCbOut_sim hR hf)
+          (b := (({ gi with txrecs := AMap.erase gi.txrecs (id, bm) }, bals), []))
+          (c := (({ si with txrecs := AMap.erase si.txrecs (id, bm) }, bals), [])) ⟨rfl, h1⟩ h2
+        rw [hs2]
+        cases h3
+        exact ⟨_, rfl, hR.1, hR.2⟩
+      · rw [if_neg hcb] at hg ⊢
+        obtain ⟨gb1, h2, h3⟩ := M_bind_ok hg
+        obtain ⟨gb2, h4, h5⟩ := M_bind_ok h3
+        cases h5
+        have h1' : RbInv addrs bm g s
+            { gi with txrecs := AMap.erase gi.txrecs (id, bm), pending := AMap.put gi.pending id tx }
+            { si with txrecs := AMap.erase si.txrecs (id, bm), pending := AMap.put si.pending id tx } :=
+          h1.minedEq mined_rfl mined_rfl
+        obtain ⟨sb1, hs2, hR1⟩ := foldIdxM_sim (RbR addrs bm g s) (rollbackIn c id bm) (rollbackIn c id bm) tx.ins
+          (fun _ _ _ _ _ _ hR hf => rollbackIn_sim hdeb hR hf)
+          (b := ({ gi with txrecs := AMap.erase gi.txrecs (id, bm), pending := AMap.put gi.pending id tx }, bals))
+          (c := ({ si with txrecs := AMap.erase si.txrecs (id, bm), pending := AMap.put si.pending id tx }, bals))
+          ⟨rfl, h1'⟩ h2
+        obtain ⟨sb2, hs4, hR2⟩ := foldIdxM_sim (RbR addrs bm g s) (rollbackOut c id bm) (rollbackOut c id bm) tx.outs
+          (fun _ _ _ _ _ _ hR hf => rollbackOut_sim hR hf) hR1 h4
+        rw [hs2]
+        simp only [M_ok_bind]
+        rw [hs4]
+        exact ⟨_, rfl, hR2.1, hR2.2⟩
+
+/-- accumulators of Rollback's outer loop: same working balances and heights, stores related -/
+def RbA (addrs : List Addr) (bm : BlockMeta) (g s : Store) (ga sa : RbAcc) : Prop :=
+  sa.bals = ga.bals ∧ sa.heights = ga.heights ∧ RbInv addrs bm g s ga.s sa.s
+
+/-- one block record, the tip's: `bm = ⟨cur, bh⟩` for the recorded hash -/
+theorem rollbackBlockAt_sim {c : Ctx} {ga sa ga' : RbAcc} {bh : BlkId} {txs : List TxId}
+    (hdeb : ∀ id i d cr, AMap.get g.debits ⟨id, bm, i⟩ = some d → AMap.get g.credits d.2 = some cr →
+      addrs.contains cr.sh = false)
+    (hrec : AMap.get ga.s.blocks bm.height = some (bh, txs)) (hbh : bm.hash = bh)
+    (h : RbA addrs bm g s ga sa) (hg : rollbackBlockAt c ga bm.height = .ok ga') :
+    ∃ sa', rollbackBlockAt c sa bm.height = .ok sa' ∧ RbA addrs bm g s ga' sa' ∧
+      ga'.heights = ga.heights ++ [bm.height] := by
+  obtain ⟨hb, hh, h⟩ := h
+  unfold rollbackBlockAt at hg ⊢
+  rw [h.blk.new bm.height rfl, hrec]
+  rw [hrec] at hg
+  dsimp only at hg ⊢
+  have hbm : (⟨bm.height, bh⟩ : BlockMeta) = bm := by cases bm; cases hbh; rfl
+  rw [hbm] at hg ⊢
+  have key := foldlM_sim
+    (fun ga sa => RbA addrs bm g s ga sa ∧ True)
+    (fun (a : RbAcc) id => do
+      let (s', bals', rem) ← rollbackTx c a.s a.bals bm id
+      pure { a with s := s', bals := bals', cb := a.cb ++ rem })
+    (fun (a : RbAcc) id => do
+      let (s', bals', rem) ← rollbackTx c a.s a.bals bm id
+      pure { a with s := s', bals := bals', cb := a.cb ++ rem }) txs.reverse
+    (by
+      intro a a' id b' _ hR hf
+      obtain ⟨⟨e1, e2, hI⟩, _⟩ := hR
+      obtain ⟨r, q1, q2⟩ := M_bind_ok hf
+      obtain ⟨r', q3, q4, q5⟩ := rollbackTx_sim hdeb hI q1
+      cases q2
+      refine ⟨{ a' with s := r'.1, bals := r'.2.1, cb := a'.cb ++ r'.2.2 }, ?_, ⟨q4, e2, q5⟩, trivial⟩
+      rw [e1, q3]
+      rfl)
+    (b := { ga with heights := ga.heights ++ [bm.height] })
+    (c := { sa with heights := sa.heights ++ [bm.height] })
+    ⟨⟨hb, by show sa.heights ++ _ = ga.heights ++ _; rw [hh], h⟩, trivial⟩ hg
+  obtain ⟨sa', k1, ⟨k2, _⟩⟩ := key
+  refine ⟨sa', k1, k2, ?_⟩
+  exact foldlM_preserves (fun (a : RbAcc) => a.heights = ga.heights ++ [bm.height]) _ _
+    (by
+      intro a id a' _ ha hf
+      obtain ⟨r, _, q2⟩ := M_bind_ok hf
+      cases q2
+      exact ha) rfl hg
 
 end MW.Lemmas.RemoveSim
